@@ -8,6 +8,8 @@ import JanetModel.Parse.Pos
 import JanetModel.Parse.Pure
 import JanetModel.Parse.Roundtrip
 import JanetModel.Parse.ReadAll
+import JanetModel.Parse.Insert
+import JanetModel.Parse.Latch
 
 namespace JanetModel.Props.C11
 open JanetModel.Parse JanetModel.PP JanetModel.Gen.Parse
@@ -449,5 +451,111 @@ theorem numOK_ex : NumOK scanEx fmtEx := by
 example : jdn scanEx fmtEx 5 vEx = some textEx ∧ vEx.dictOK = true ∧ jdn scanEx fmtEx 3 vEx = none := by decide
 example : ∃ w, parseAll scanEx textEx = [Event.value w] ∧ SmEq w vEx :=
   jdn_roundtrip scanEx fmtEx numOK_ex 5 vEx textEx (by decide) (by decide)
+
+/-- regenerated obligation: the delimiters, separators and depth discipline the printer model `jdn` hard-codes are those of the
+    current `print_jdn_one` (pp.c), as transcribed into `Gen/Parse.lean` on every run (`ppTupleParen` ... `ppKvSep`): `(`/`[` ... `)`/`]`
+    for tuples, `@[` ... `]`, `{` / `@{` ... `}`, one space between items, between key and value and between pairs; every recursive
+    call spends one unit of depth and depth 0 refuses (the translator also checks: all six recursive calls pass `depth - 1`, the
+    default case refuses, a refusal panics, `%j`'s default budget is JANET_RECURSION_GUARD = `jdnDefaultDepth`) -/
+theorem jdn_printer_shape (scan : List B → Option String) (fmt : String → Option (List B)) (d : Nat) :
+    (∀ br l c items, jdn scan fmt (d + 1) (.tuple br l c items) =
+      ((allSome (items.map (jdn scan fmt d))).map (sepBy [ppItemSep.toUInt8])).map (fun s =>
+        [(if br then ppTupleBracket.1 else ppTupleParen.1).toUInt8] ++ s ++ [(if br then ppTupleBracket.2 else ppTupleParen.2).toUInt8])) ∧
+    (∀ items, jdn scan fmt (d + 1) (.array items) =
+      ((allSome (items.map (jdn scan fmt d))).map (sepBy [ppItemSep.toUInt8])).map (fun s =>
+        ppArrayOpen.map Nat.toUInt8 ++ s ++ [ppArrayClose.toUInt8])) ∧
+    (∀ ks vs, jdn scan fmt (d + 1) (.struct ks vs) =
+      ((allSome ((ks.zip vs).map (fun kv => match jdn scan fmt d kv.1, jdn scan fmt d kv.2 with
+        | some a, some b => some (a ++ [ppKvSep.toUInt8] ++ b)
+        | _, _ => none))).map (sepBy [ppItemSep.toUInt8])).map (fun s => ppStructOpen.map Nat.toUInt8 ++ s ++ [ppDictClose.toUInt8])) ∧
+    (∀ ks vs, jdn scan fmt (d + 1) (.table ks vs) =
+      ((allSome ((ks.zip vs).map (fun kv => match jdn scan fmt d kv.1, jdn scan fmt d kv.2 with
+        | some a, some b => some (a ++ [ppKvSep.toUInt8] ++ b)
+        | _, _ => none))).map (sepBy [ppItemSep.toUInt8])).map (fun s => ppTableOpen.map Nat.toUInt8 ++ s ++ [ppDictClose.toUInt8])) ∧
+    (∀ v, jdn scan fmt 0 v = none) := by
+  refine ⟨?_, ?_, ?_, ?_, ?_⟩
+  · intro br l c items; cases br <;> rfl
+  · intro items; rfl
+  · intro ks vs; rfl
+  · intro ks vs; rfl
+  · intro v; rfl
+
+/-- the example value is printable with `%j`'s default budget -/
+example : jdn scanEx fmtEx jdnDefaultDepth vEx = some textEx := by decide
+
+/-! ## `parser/insert` keeps the parser well formed -/
+
+/-- ★ (regenerated obligation: needs `cfun_parse_insert` to recognise the root frame by `s == p->states`, `Gen.insertRootTestByFrame`)
+    `parser/insert` from ANY well-formed state -- inside a container, a comment, a string, with a pending token (which it finishes
+    by feeding a space), whether it succeeds or panics -- leaves a well-formed parser, so the frame walk of `parser/state` stays
+    inside the argument array -/
+theorem insert_preserves_wf (scan : List B → Option String) (p : Parser) (v : Value) (vstr : List B) (h : WF p) :
+    WF (insert scan p v vstr).1 ∧ framesInBounds (insert scan p v vstr).1 = true :=
+  ⟨WF_insert scan v vstr h, insert_frames_in_bounds scan v vstr h⟩
+
+/-- ★ the invariant holds in every state reachable from a fresh parser by ANY history of bytes (with the error protocol),
+    `parser/produce`, queries, `parser/insert`, raw `parser/flush` and raw `parser/error` -/
+theorem wf_reachable_with_insert (scan : List B → Option String) (ops : List OpI) :
+    WF (ops.foldl (runOpI scan) Run.init).p ∧ framesInBounds (ops.foldl (runOpI scan) Run.init).p = true :=
+  ⟨WF_runOpsI scan ops Run.init WF_init, framesInBounds_of_WF (WF_runOpsI scan ops Run.init WF_init)⟩
+
+example : ((insert (fun _ => none) Parser.init (.kw [97]) []).1.pending, (insert (fun _ => none) Parser.init (.kw [97]) []).1.args.length) = (1, 1) := by
+  decide
+
+/-! ## the error latch; `janet_parser_eof` -/
+
+/-- ★ once `error` is set, `janet_parser_consume` refuses every further byte and `janet_parser_eof` too: the whole state -- queue,
+    frames, positions -- is frozen, `parser/status` says `:error`; the same for a dead parser -/
+theorem error_latch (scan : List B → Option String) (p : Parser) (h : p.error.isSome = true) (bs : List B) :
+    bs.foldl (consume scan) p = p ∧ eof scan p = p ∧ status p = .error :=
+  ⟨consume_latched scan h bs, eof_refused scan (checkDead_of_error h), (status_error_iff p).mpr h⟩
+
+theorem dead_latch (scan : List B → Option String) (p : Parser) (h : p.flag ≠ 0) (bs : List B) :
+    bs.foldl (consume scan) p = p ∧ eof scan p = p :=
+  ⟨consume_dead scan h bs, eof_refused scan (checkDead_of_flag h)⟩
+
+/-- `parser/flush` does not release the latch; `parser/error` does (and flushes) -/
+theorem latch_release (p : Parser) (e : String) (h : p.error = some e) :
+    (flush p).error = some e ∧ (takeError p).1 = some e ∧ (takeError p).2.error = none ∧ (takeError p).2.pending = 0 ∧
+    (takeError p).2.args = [] ∧ (takeError p).2.states.length = min p.states.length 1 := by
+  have := takeError_clears h
+  exact ⟨by rw [(flush_keeps_error p).1, h], this.1, this.2.1, this.2.2.1, this.2.2.2.1, this.2.2.2.2.2.1⟩
+
+/-- ★ `janet_parser_eof` after ANY byte string fed to a fresh parser (client follows the error protocol): the parser ends dead
+    (`:dead` or `:error`, accepts nothing more), line / column are those before the call, and EITHER at most the root frame is left
+    and error / queue are exactly what the final newline produced, OR the error is "unexpected end of source, D opened at line L,
+    column C" for the innermost open frame (delimiter D, position L:C) -/
+theorem eof_after_any_bytes (scan : List B → Option String) (bs : List B) :
+    let p := (feed scan Run.init bs).p
+    (eof scan p).flag ≠ 0 ∧ (eof scan p).line = p.line ∧ (eof scan p).column = p.column ∧
+    (status (eof scan p) = .dead ∨ status (eof scan p) = .error) ∧
+    (∀ more : List B, more.foldl (consume scan) (eof scan p) = eof scan p) ∧
+    (((consumeRaw scan p 10).states.length ≤ 1 ∧ (eof scan p).error = (consumeRaw scan p 10).error ∧
+        (eof scan p).states = (consumeRaw scan p 10).states) ∨
+     (∃ f R, (consumeRaw scan p 10).states = f :: R ∧ R ≠ [] ∧ (eof scan p).error = some (eofMessage f))) := by
+  intro p
+  have hlive := position_function_of_bytes scan bs
+  have hcd : checkDead p = none := by simp [checkDead, p, hlive.2.1, hlive.2.2]
+  have ho := eof_outcome scan p hcd
+  have hs := eof_status scan p hcd
+  refine ⟨ho.2.1, ho.2.2.1, ho.2.2.2.1, hs.1, hs.2, ?_⟩
+  rcases ho.2.2.2.2.2.2.2 with h | h
+  · exact Or.inl ⟨h.1, h.2, ho.2.2.2.2.1⟩
+  · exact Or.inr h
+
+/-- the same characterisation from any state that accepts `eof` (no latched error, not dead) -/
+theorem eof_outcome_any (scan : List B → Option String) (p : Parser) (h : checkDead p = none) :
+    (eof scan p).flag ≠ 0 ∧
+    (((consumeRaw scan p 10).states.length ≤ 1 ∧ (eof scan p).error = (consumeRaw scan p 10).error) ∨
+     (∃ f R, (consumeRaw scan p 10).states = f :: R ∧ R ≠ [] ∧ (eof scan p).error = some (eofMessage f))) :=
+  ⟨(eof_outcome scan p h).2.1, (eof_outcome scan p h).2.2.2.2.2.2.2⟩
+
+/-- after `finish` the queue is empty: every value was handed to the client -/
+theorem finish_drains (scan : List B → Option String) (bs : List B) : (finish scan (feed scan Run.init bs)).p.pending = 0 :=
+  finish_pending scan (WF_feed scan bs WF_init)
+
+example : (eof (fun _ => none) (feed (fun _ => none) Run.init [40, 91]).p).error =
+    some "unexpected end of source, [ opened at line 1, column 2" := by decide
+example : (eof (fun _ => some "n") (feed (fun _ => some "n") Run.init [49, 32]).p).error = none := by decide
 
 end JanetModel.Props.C11
